@@ -963,6 +963,24 @@ def child_main(argv):
                         stats.fail(case, v)
                         break
                     stats.record(case, res, keep_sample=False)
+        if PLATFORM in ("netbsd", "sunos", "aix"):
+            # Python-level procfs accesses (readlink/stat/listdir under
+            # /proc/<pid>) of every method x errno x zombie, and on SunOS/AIX
+            # the two-step form (items vanish, then stat() fails with err2)
+            seconds = [None] + (list(ERRNOS) if PLATFORM in ("sunos", "aix") else [])
+            for mi in range(len(methods)):
+                for err in ERRNOS:
+                    for err2 in (seconds if err == "ENOENT" else [None]):
+                        for zombie in (False, True):
+                            n += 1
+                            case = dict(kind="procfs-fault", method=mi, err=err, err2=err2, zombie=zombie,
+                                        cached_name=[None, "cached-name"][(n + seed) % 2], platform=PLATFORM)
+                            try:
+                                res = PROP.run_case(case)
+                            except runner.Violation as v:
+                                stats.fail(case, v)
+                                break
+                            stats.record(case, res, keep_sample=False)
         if PLATFORM == "windows":
             # ERROR_PARTIAL_COPY first, then every other error at the retry
             for mi in range(len(methods)):
@@ -1003,7 +1021,7 @@ PROP = Property(
           "distinct = (platform, method, errno | slot, outcome)."),
     strategy=strategy,
     run_case=run_case,
-    budgets={"quick": 7000, "thorough": 70000},
+    budgets={"quick": 21000, "thorough": 70000},
     assumptions=[
         "the native C / Obj-C sources of other platforms are not compiled or "
         "executed: the Python layers are driven over a stub native layer",
